@@ -3,23 +3,29 @@
 
     pkg/uefi/flash.go               FindSignature, ParseFlashDescriptor, NewFlashImage, fillRegionGaps
     pkg/uefi/flashdescriptormap.go  16 uint8 fields (re-serialisation = identity on the 16 bytes)
-    pkg/uefi/flashregionsection.go  `_ uint16` (written back as zero), FlashBlockEraseSize, 15 x {Base, Limit}
+    pkg/uefi/flashregionsection.go  `_ uint16` (reserved, kept by the repaired Assemble), FlashBlockEraseSize, 15 x {Base, Limit}
     pkg/uefi/flashmastersection.go  3 x {uint16, uint8, uint8} (re-serialisation = identity on the 12 bytes)
     pkg/uefi/region.go              Valid, BaseOffset, EndOffset, region constructors by index
     pkg/uefi/meregion.go            FindMEDescriptor, NewMEFPT, NewMERegion (FreeSpaceOffset)
     pkg/uefi/biosregion.go          NewBIOSRegion (padding / volume elements), FirstFV
-    pkg/uefi/firmwarevolume.go      FindFirmwareVolumeOffset, NewFirmwareVolume -- volumes are opaque blobs
-    pkg/visitors/tightenme.go       TightenME.Run / process          (AS REPAIRED, see fixes/C12-*.diff)
+    pkg/uefi/firmwarevolume.go      FindFirmwareVolumeOffset, NewFirmwareVolume -- the SHARED parse model
+                                    (FianoModel/Uefi/Parse.lean `parseBiosElems`, used by name); here a
+                                    volume is kept as the blob `data[:Length]` plus "has files"
+    pkg/visitors/tightenme.go       TightenME.Run / process          (AS REPAIRED, see fixes/C12-*.diff:
+                                    partition-beyond-region, empty-leading-padding)
     pkg/visitors/assemble.go        cases FlashDescriptor, BIOSRegion, FlashImage
 
-  Self-contained (does not use the UEFI tree model of lean/FianoModel/Uefi): tighten_me never looks
-  inside a firmware volume, so a volume is the byte blob `data[:Length]`.  Volumes whose files
-  would have to be parsed (FFS2/FFS3 with at least one file) are answered `Err.unmodelled`,
-  never guessed.  Hand-written; tied to the Go code by Gen.TightenMe / Gen.TightenMeVis (T1, see
-  Tie.lean) and by the correspondence harness harness/props/c12 driving Driver/C12.lean (T2).
-  Core Lean only.
+  Flash-level model: tighten_me never looks inside a firmware volume, so a volume is the byte blob
+  `data[:Length]`.  The BIOS region is parsed by the shared UEFI parse model (volumes, files,
+  sections — so every repair of that parser reaches this model without a hand copy); the tree is
+  then flattened to `Elem`s.  Assemble is modelled here for volumes WITHOUT files only (it returns
+  them untouched); a volume with files makes `asmFlash` answer `Err.unmodelled`, never a guess —
+  the tree-level model FianoModel/TightenMe/Tree.lean covers those.  Hand-written; tied to the Go
+  code by Gen.TightenMe / Gen.TightenMeVis (T1, see Tie.lean) and by the correspondence harness
+  harness/props/c12 driving Driver/C12.lean (T2).  Core Lean only.
 -/
 import FianoModel.Base.Bytes
+import FianoModel.Uefi.Parse
 
 namespace Fiano.TightenMe
 
@@ -56,7 +62,7 @@ inductive Err where
   | notErased
   | asm           -- any error return of Assemble
   | badRef        -- a region refers to a table slot that does not exist (unreachable; no default is invented)
-  | unmodelled    -- a volume whose files would have to be parsed: outside this model
+  | unmodelled    -- Assemble of a volume that has files: outside this flash-level model
   | panic         -- Go would panic (slice bounds) -- only reachable on trees that parsing never builds
   deriving Repr, DecidableEq, Inhabited
 
@@ -100,8 +106,10 @@ def decodeRegs : Nat → Bytes → List FRegion
 
 def encodeRegs (rs : List FRegion) : Bytes := rs.flatMap (fun r => leN 2 r.base ++ leN 2 r.limit)
 
-/-- `binary.Write(region, LittleEndian, f.Region)`: the blank `_ uint16` is written as zero. -/
-def encodeRegionSection (d : Desc) : Bytes := [0, 0] ++ leN 2 d.eraseSize ++ encodeRegs d.regs
+/-- `binary.Write(region, LittleEndian, f.Region)` without its first two bytes (`region.Bytes()[2:]`):
+    the blank `_ uint16` would be written as zero, the repaired Assemble (fix d9ba762, DESIGN §8 #19)
+    keeps the two reserved bytes of the buffer instead. -/
+def encodeRegionTail (d : Desc) : Bytes := leN 2 d.eraseSize ++ encodeRegs d.regs
 
 def Desc.numberOfRegions (d : Desc) : Nat := fromLE (slice d.dmap 3 1)
 
@@ -120,9 +128,10 @@ def parseDesc (b : Bytes) : Except Err Desc :=
           eraseSize := fromLE (slice sec 2 2), regs := decodeRegs nRegions (sec.drop 4),
           master := slice b masterStart masterSize }
 
-/-- the three `copy(fBuf[start:start+size], …)` of the FlashDescriptor case, in Go's order -/
+/-- the three `copy`s of the FlashDescriptor case, in Go's order; the region section is written from
+    its third byte on: `copy(fBuf[RegionStart+2:RegionStart+64], region.Bytes()[2:])` -/
 def asmDesc (d : Desc) : Bytes :=
-  splice (splice (splice d.buf d.mapStart d.dmap) d.regionStart (encodeRegionSection d)) d.masterStart d.master
+  splice (splice (splice d.buf d.mapStart d.dmap) (d.regionStart + 2) (encodeRegionTail d)) d.masterStart d.master
 
 /-! ### ME region (meregion.go) -/
 
@@ -165,96 +174,25 @@ structure Elem where
   off  : Nat      -- BIOSPadding.Offset / FirmwareVolume.FVOffset
   buf  : Bytes
   pol  : Nat      -- volume: its erase polarity (0xFF / 0x00); padding: 0
+  files : Bool := false   -- volume: it has parsed files (Assemble would re-lay it: not modelled here)
   deriving Repr, DecidableEq, Inhabited
-
-/-- scan of `FindFirmwareVolumeOffset`: first `offset = from, from+8, …` with `offset+4 < len`
-    holding "_FVH".  `b` is the data from `from` on, `len` = remaining length. -/
-def scanFV : Nat → Bytes → Nat → Option Nat
-  | 0, _, _ => none
-  | fuel+1, b, off =>
-    if b.length ≤ 4 then none
-    else if slice b 0 4 = fvSig then some off
-    else scanFV fuel (b.drop 8) (off + 8)
-
-/-- `FindFirmwareVolumeOffset`: `none` = negative result (no hit, or a hit at 32 which yields −8) -/
-def findFVOffset (data : Bytes) : Option Nat :=
-  if data.length < 32 then none else
-  match scanFV (data.length / 8 + 1) (data.drop 32) 32 with
-  | none => none
-  | some h => if h < 40 then none else some (h - 40)
-
-/-- block map: 8-byte `{Count, Size}` entries up to a `{0,0}` terminator; `false` = EOF first, or
-    (fix 53530a3) an entry at `pos` that does not end inside the volume (`pos + 8 > Length`) -/
-def readBlocks (length : Nat) : Nat → Bytes → Nat → Bool
-  | 0, _, _ => false
-  | fuel+1, b, pos =>
-    if pos + 8 > length then false
-    else if b.length < 8 then false
-    else if fromLE (slice b 0 4) = 0 ∧ fromLE (slice b 4 4) = 0 then true
-    else readBlocks length fuel (b.drop 8) (pos + 8)
 
 /-- `uefi.SetErasePolarity` (SuppressErasePolarityError = false); `ep` is 0xFF or 0 here -/
 def setPolarity (pol ep : Nat) : Except Err Nat :=
   if pol ≠ poisoned then (if pol ≠ ep then .error .parse else .ok pol) else .ok ep
 
-def align8 (n : Nat) : Nat := (n + 7) / 8 * 8
+/-- what this model keeps of an element of the shared tree -/
+def toElem : Uefi.BiosElem → Elem
+  | .pad b o => ⟨false, o, b, 0, false⟩
+  | .fv v => ⟨true, v.info.fvOffset, v.buf, (Uefi.polOfAttrs v.info.attrs).toNat, !v.files.isEmpty⟩
 
-/-- The part of `NewFirmwareVolume` that runs for FFS2/FFS3 volumes: `ok` iff no file is found
-    (loop not entered, or the first candidate is free space); a volume with files is outside the
-    model. -/
-def ffsFiles (data : Bytes) (length : Nat) : Except Err Unit :=
-  let headerLen := fromLE (slice data 48 2)
-  let extOff := fromLE (slice data 52 2)
-  let dataOffset := align8 (
-    if extOff ≠ 0 ∧ length ≥ fvExtHeaderMin ∧ extOff ≤ length - fvExtHeaderMin
-    then extOff + fromLE (slice data (extOff + 16) 4) else headerLen)
-  let lh := u64 (length + 2 ^ 64 - fileHeaderMin)
-  if ¬ dataOffset ≤ lh then .ok () else
-  if data.length ≤ dataOffset then .error .parse else
-  let d := data.drop dataOffset
-  if d.length < fileHeaderMin then .error .parse else
-  if slice d 20 3 = [0xFF, 0xFF, 0xFF] then
-    -- repaired reader (fixes/C02-erased-tail-24): an erased 24-byte header at the very end is free space
-    if d.length < 32 then (if (d.take 24).all (· == 0xFF) then .ok () else .error .parse)
-    else if slice d 24 8 = List.replicate 8 0xFF then .ok ()
-    else .error .unmodelled
-  else .error .unmodelled
-
-/-- `NewFirmwareVolume(data, …)`: the volume's `Length` and polarity, and the new global polarity -/
-def parseFV (pol : Nat) (data : Bytes) : Except Err (Nat × Nat × Nat) :=
-  if data.length < fvMinSize then .error .parse else
-  if ! readBlocks (fromLE (slice data 32 8)) (data.length / 8 + 1) (data.drop fvFixedHeader) fvFixedHeader then .error .parse else
-  let ep := if fromLE (slice data 44 4) / 0x800 % 2 = 1 then 0xFF else 0
-  match setPolarity pol ep with
-  | .error e => .error e
-  | .ok pol' =>
-    let length := fromLE (slice data 32 8)
-    if length > data.length then .error .parse else
-    let guid := slice data 16 16
-    if guid ≠ ffs2 ∧ guid ≠ ffs3 then .ok (length, ep, pol') else
-    match ffsFiles data length with
-    | .error e => .error e
-    | .ok () => .ok (length, ep, pol')
-
-/-- the loop of `NewBIOSRegion`; `abs` = absOffset.  Fuel `|buf|+1` is never exhausted because
-    every round consumes at least one byte (`Length ≠ 0`). -/
-def parseBiosLoop : Nat → Nat → Bytes → Nat → Except Err (List Elem × Nat)
-  | 0, _, _, _ => .error .parse
-  | fuel+1, pol, buf, abs =>
-    match findFVOffset buf with
-    | none => if buf.length ≠ 0 then .ok ([⟨false, abs, buf, 0⟩], pol) else .ok ([], pol)
-    | some off =>
-      let pads : List Elem := if off > 0 then [⟨false, abs, buf.take off, 0⟩] else []
-      match parseFV pol (buf.drop off) with
-      | .error e => .error e
-      | .ok (len, ep, pol') =>
-        if len = 0 then .error .parse else
-        match parseBiosLoop fuel pol' (buf.drop (off + len)) (abs + off + len) with
-        | .error e => .error e
-        | .ok (rest, pol'') => .ok (pads ++ ⟨true, abs + off, (buf.drop off).take len, ep⟩ :: rest, pol'')
-
-def parseBios (pol : Nat) (buf : Bytes) : Except Err (List Elem × Nat) :=
-  parseBiosLoop (buf.length + 1) pol buf 0
+/-- `NewBIOSRegion` = the shared parse model's element loop (FindFirmwareVolumeOffset,
+    NewFirmwareVolume with its files and sections), flattened; `fuel` is the shared model's
+    recursion budget (`Uefi.defaultFuel` of the whole image) -/
+def parseBios (fuel pol : Nat) (buf : Bytes) : Except Err (List Elem × Nat) :=
+  match Uefi.parseBiosElems Uefi.Hooks.none fuel buf 0 { pol := UInt8.ofNat pol } with
+  | .error _ => .error .parse
+  | .ok (es, st) => .ok (es.map toElem, st.pol.toNat)
 
 /-! ### the tree -/
 
@@ -305,7 +243,7 @@ def parseRegions (img : Bytes) (nr : Nat) : Nat → List FRegion → Nat → Exc
     if fr.endOff > img.length then parseRegions img nr (i + 1) frs pol else
     let buf := slice img fr.baseOff (fr.endOff - fr.baseOff)
     if i = 0 then
-      match parseBios pol buf with
+      match parseBios (Uefi.defaultFuel img) pol buf with
       | .error e => .error e
       | .ok (els, pol') =>
         match parseRegions img nr (i + 1) frs pol' with
@@ -441,9 +379,11 @@ def tighten (pol : Nat) (f : Flash) : Except Err Flash :=
         let f1 := writeLimit { f with regions := f.regions.set i mer' } i mer' (u16 (u64 (ub + 2 ^ 64 - 1)))
         -- offsetShift := uint64(br.BaseOffset()) - updateOffset   (BaseOffset read before Base is written)
         let shift := u64 (bfr.baseOff + 2 ^ 64 - uo)
-        let pad : Elem := ⟨false, 0, mer.buf.drop bo, 0⟩
+        -- the new leading BIOSPadding; repaired (fixes/C12-empty-leading-padding.diff): none when
+        -- nothing was freed — an empty padding would record offset 0 like the element behind it
+        let pads : List Elem := if bo < mer.buf.length then [⟨false, 0, mer.buf.drop bo, 0, false⟩] else []
         -- the ME write may have replaced the BIOS node's own FlashRegion only if i = j (impossible)
-        let br' : Region := { br with body := .bios (u64 (blen + shift)) (pad :: shiftElems shift elems) }
+        let br' : Region := { br with body := .bios (u64 (blen + shift)) (pads ++ shiftElems shift elems) }
         let f2 := writeBase { f1 with regions := f1.regions.set j br' } j br' (u16 ub)
         .ok f2
       | .error e, _ => .error e
@@ -464,12 +404,13 @@ def copyElems (fBuf : Bytes) : Nat → List Elem → Except Err Bytes
     if off + e.buf.length > fBuf.length then .error .panic
     else copyElems (splice fBuf off e.buf) (off + e.buf.length) es
 
-/-- every volume's `SetErasePolarity(f.GetErasePolarity())` in Assemble.Visit (volumes are leaves
-    here, so their buffers are kept) -/
+/-- every volume's `SetErasePolarity(f.GetErasePolarity())` in Assemble.Visit (a volume without
+    files is a leaf: its buffer is kept; one with files is outside this model) -/
 def asmVolumes : Nat → List Elem → Except Err Nat
   | pol, [] => .ok pol
   | pol, e :: es =>
     if e.isFV then
+      if e.files then .error .unmodelled else
       match setPolarity pol e.pol with
       | .error _ => .error .asm
       | .ok pol' => asmVolumes pol' es
